@@ -23,7 +23,7 @@ CHECKS = {
     "C03": dict(
         category="model_checking",
         technique="exhaustive walk of a finite configuration lattice (h, r, declaration order) on the real evaluator and the public fuzz API",
-        text="Every configuration 0..12 x 0..12 (thorough 0..40 x 0..40) of h hard constraints and r computed repetitions in 3 declaration orders is built as a real spec; an independently confirmed satisfying tree must be yielded by the real Evaluator.evaluate_individual on first sight, and for small h + r Fandango.fuzz(initial_population=[witness]) must report a solution.",
+        text="Every configuration 0..12 x 0..12 (thorough 0..40 x 0..40) of h hard constraints and r computed repetitions in 3 declaration orders, with repetition counts 2 and 0 (zero iterations; h, r <= 6), is built as a real spec; an independently confirmed satisfying tree must be yielded by the real Evaluator.evaluate_individual on first sight, and for small h + r Fandango.fuzz(initial_population=[witness]) must report a solution.",
         note="The lattice is finite and walked completely; constraints are tautologies / fixed-count repetitions so the witness is known to satisfy them. Rounding defect repaired in /repo (fix commit, see known_findings.json).",
         design="4 C03",
     ),
@@ -73,13 +73,13 @@ CHECKS = {
         category="model_checking",
         technique="exhaustive enumeration of all 2^(n-1) fragmentations of every input on the real incremental parser, differential against the one-shot parse plus a reference viable-prefix oracle",
         text="For every grammar of a fragmentation family (multi-character literals, regexes, alternatives sharing prefixes, repetitions, bytes/bit fields) and every input up to length 5 (thorough 7) every composition into consecutive fragments is fed through new_parse()/consume(); complete trees after the last fragment must equal the one-shot result, and can_continue() may be False only if no extension is in the reference language.",
-        note="Grammars with an empty-deriving body under */+ are excluded (they diverge: C06 finding). Two regex-split deviations are recorded known findings.",
+        note="Grammars with an empty-deriving body under */+ are included since the C06 repair. Two regex-split deviations are recorded known findings.",
         design="4 C13",
     ),
     "C04": dict(
         category="model_checking",
         technique="bounded-exhaustive explicit enumeration: every grammar of a family x every input up to a length bound on the real parser, each verdict compared with a reference matcher",
-        text="All grammars of operator depth <= 2 over collision atoms (plus recursion templates, inner start symbols, byte/bit/regex binary atoms) x all words up to length 4 (quick) / 6 (thorough) over the alphabet plus a foreign character are parsed by the real Earley parser; every yielded tree is checked by an independent derivation checker, must serialise exactly to the input and contain no helper symbols, and non-members must yield nothing. Through Fandango.parse with constraints, yielded trees must satisfy the reference constraint semantics.",
+        text="All grammars of operator depth <= 2 over collision atoms (plus recursion templates, inner start symbols, byte/bit/regex binary atoms) x all words up to length 4 (quick) / 6 (thorough) over the alphabet plus a foreign character are parsed by the real Earley parser; every yielded tree is checked by an independent derivation checker, must serialise exactly to the input and contain no helper symbols, and non-members must yield nothing; the same for twelve computed-repetition templates against a combinator reference. Through Fandango.parse with constraints, yielded trees must satisfy the reference constraint semantics.",
         note="Trusted: RefGrammar (mc/refgrammar.py) and Python's re. Small-scope: grammars/words beyond the bounds are not covered.",
         design="4 C04",
     ),
@@ -87,48 +87,48 @@ CHECKS = {
         category="model_checking",
         technique="bounded-exhaustive explicit enumeration of (grammar, word) pairs against a reference language enumerator; generator choice-tree exploration for the round trip",
         text="Every word of the reference language (regex leaves taking the match re.match prefers: narrowest reading of the property's class) up to the length bound must parse to >= 1 tree with identical serialisation, for the same grammar family as C04.",
-        note="Trusted: RefGrammar. The empty-regex-match defect is a recorded known finding (known_findings.json).",
+        note="Trusted: RefGrammar and, for computed repetitions, the combinator reference of mc/computed_sweep.py. The empty-regex-match defect was repaired for the basic shapes; its residue under nested repetitions and the generated-word/non-preferred-regex-split deviation are recorded known findings.",
         design="4 C05",
     ),
     "C06": dict(
         category="model_checking",
         technique="bounded-exhaustive enumeration of (grammar, input, request kind) with a state-admission budget as bounded-liveness oracle",
-        text="Every (grammar, word) of the family is parsed as whole forest and in prefix mode under a Column.add admission budget of 30 000 (terminating requests of these sizes need < 5 000; the measured maximum is in the evidence). A request exceeding the budget is reported as non-terminating.",
-        note="Bounded liveness: a budget overrun is taken as divergence (margin reported). The nullable-body-under-*/+ divergence is a recorded known finding.",
+        text="Every (grammar, word) of the family is parsed as whole forest and in prefix mode under a Column.add admission budget of 30 000 (terminating requests of these sizes need < 5 000; the measured maximum is in the evidence). A request exceeding the budget or 30 s is reported as non-terminating. Twelve templates of computed repetitions ({int(<n>)}) in recursive, nested, starred and nullable contexts x every word up to length 5 (thorough 7) go through the same requests.",
+        note="Bounded liveness: a budget overrun is taken as divergence (margin reported). The nullable-body-under-*/+ divergence was repaired in /repo.",
         design="4 C06",
     ),
     "C14": dict(
         category="model_checking",
         technique="bounded-exhaustive enumeration of spec texts (all line sequences up to a length bound over a lexer-oriented line alphabet, plus shipped specs), differential comparison of the two front ends on every text",
-        text="The C++ front end is rebuilt from /repo's current cpp_parser sources (cached by source hash). Every text of <= 2 lines over a 20-line alphabet and <= 3 lines over a core alphabet (thorough: 3 lines over all, 4 over a core), with and without final newline - rule lines, rules continued over open brackets, where lines, def headers, bodies at indent 1/2 with spaces or tabs, blank and comment lines, f-strings, generators, unbalanced brackets, dedents to unseen levels - plus the shipped .fan files go through both front ends in one process; parse trees (rule names, token types and texts) and extracted Python code must be identical, or both must reject with the same error class.",
+        text="The C++ front end is rebuilt from /repo's current cpp_parser sources (cached by source hash). Every text of <= 2 lines over a 20-line alphabet and <= 3 lines over a core alphabet (thorough: 3 lines over all, 4 over a core), with and without final newline, and with LF / CRLF / bare-CR line endings - rule lines, rules continued over open brackets, where lines, def headers, bodies at indent 1/2 with spaces or tabs, blank and comment lines, f-strings, generators, unbalanced brackets, dedents to unseen levels - plus the shipped .fan files go through both front ends in one process; parse trees (rule names, token types and texts) and extracted Python code must be identical, or both must reject with the same error class.",
         note="Trusted: the comparison harness; INDENT/DEDENT token text is ignored (lexer-base artefact nothing downstream reads). Built with cmake/g++ -O2 rather than the project's LTO flags.",
         design="4 C14",
     ),
     "C15": dict(
         category="model_checking",
         technique="bounded-exhaustive enumeration of specs (grammars over printer-oriented atoms, C07 constraint family); read - print - re-read round trip compared structurally / by verdicts on all enumerated trees",
-        text="~1750 grammars (operator depth <= 2 over literals with both quote kinds, backslashes, non-ASCII, non-printables, bytes, str/bytes regexes with quotes, bits, groups under every postfix operator, every bound form, generators, computed repetitions) and ~900 (thorough ~1800) constraint programs: the generated text is read, printed with repr(grammar) / format_as_spec(), and the printed text is read again. The re-read grammar must denote the same language (both converted node by node into RefGrammar, structural comparison confirmed by a distinguishing word), generators must survive, and the re-read constraint must give the same verdict on every enumerated tree.",
+        text="~2250 grammars (operator depth <= 2 over literals with both quote kinds, backslashes, non-ASCII, non-printables, bytes, str/bytes regexes with quotes, bits, groups under every postfix operator, every bound form, generators, computed repetitions; operator-depth-3 grouping frames: postfix operator over a concatenation/alternative whose first/middle/last elements are groups; the same text as literal and regex, str and bytes, in one spec) and ~900 (thorough ~1800) constraint programs: the generated text is read, printed with repr(grammar) / format_as_spec(), and the printed text is read again. The re-read grammar must denote the same language (both converted node by node into RefGrammar, structural comparison confirmed by a distinguishing word), generators must survive, and the re-read constraint must give the same verdict on every enumerated tree.",
         note="Two printer defects were repaired; three are recorded known findings.",
         design="4 C15",
     ),
     "C16": dict(
         category="model_checking",
         technique="explicit-state reachability over trees under the search operators (all random resolutions) and deviation-bounded loop exploration on specs whose generator functions log every call",
-        text="On a spec with a constant, a random (through the random seam) and an argument-dependent generator whose functions log (name, arguments, value): every tree reachable through mutate/crossover/repair to depth 2 (thorough 3) and every tree in every loop execution within the deviation bound must carry, in each generator-owned node, a logged return value that equals the function of the argument values recorded in .sources; a generator whose value does not fit its rule must raise under every resolution.",
-        note="The read-only marking itself is not judged (mechanism, not property).",
+        text="On a spec with a constant, a random (through the random seam) and an argument-dependent generator whose functions log (name, arguments, value): every tree reachable through mutate/crossover/repair to depth 2 (thorough 3) and every tree in every loop execution within the deviation bound must carry, in each generator-owned node, a logged return value that equals the function of the argument values recorded in .sources; a generator whose value does not fit its rule must raise under every resolution. Further specs: a generator with two symbol arguments, and a no-argument generator next to an equality constraint.",
+        note="The read-only marking itself is not judged (mechanism, not property). One deviation (equality repair overwrites a generated field) is a recorded known finding.",
         design="4 C16",
     ),
     "C17": dict(
         category="model_checking",
         technique="exhaustive enumeration of environment-seam combinations (heap layout x clock offset x import order) per configuration, each in a fresh process, outputs compared byte for byte",
-        text="24 (thorough 96) configurations (12 specs spanning grammar-only, constraints, computed repetitions, equality repair, generators, regexes, bits, soft constraints, ambiguity x seeds x population sizes) are each run in 8 fresh processes, one per combination of two heap layouts (garbage allocated before importing fandango shifts every id()), two clock offsets and two import orders, with the same PYTHONHASHSEED; the ordered solution sequence, the returned list and the parse forest must be identical across all children.",
+        text="45 (thorough 150) configurations (15 specs spanning grammar-only, constraints, computed repetitions, equality repair, generators, regexes, bits, soft constraints, ambiguity, wide ambiguity, ambiguous generator output, explicit conjunctions x seeds x population sizes, plus one 20-generation run per spec) are each run in 8 fresh processes, one per combination of two heap layouts (garbage allocated before importing fandango shifts every id()), two clock offsets and two import orders, with the same PYTHONHASHSEED; the ordered solution sequence, the returned list, the parse forest and the first tree must be identical across all children.",
         note="Decides independence from these three sources for these configurations only; os.urandom/uuid4 are not intercepted.",
         design="4 C17",
     ),
     "C18": dict(
         category="model_checking",
         technique="explicit-state enumeration of activity histories on other spec objects, each history in its own fresh process, differential oracle against the instance used alone",
-        text="All histories up to length 2 (thorough 3) over {fuzz / long stagnating fuzz / parse on spec A, construct / fuzz a third spec, unrelated parse and differently seeded fuzz on B} for 2 x 3 spec pairs chosen so that A touches what B reads (stagnation raises the repetition cap; B has *, +, {n,}; shared start symbols and words); every history runs in a process forked from a parent that only imported fandango. B's seeded solution sequence and parse forest must equal those of B used alone; a fingerprint of fandango's module-level mutable state is recorded per state.",
+        text="All histories up to length 2 (thorough 3) over {fuzz / fuzz that finds its solutions at once / long stagnating fuzz / soft-goal evaluation / parse on spec A, construct / fuzz a third spec, unrelated parse and differently seeded fuzz on B} for 2 x 3 spec pairs chosen so that A touches what B reads (stagnation raises the repetition cap; B has *, +, {n,}; shared start symbols and words); every history runs in a process forked from a parent that only imported fandango. B's seeded solution sequence and parse forest must equal those of B used alone; a fingerprint of fandango's module-level mutable state is recorded per state.",
         note="The repetition-cap leak was repaired in /repo.",
         design="4 C18",
     ),
@@ -136,7 +136,7 @@ CHECKS = {
         category="model_checking",
         technique="explicit-state BFS over message histories driving the real forecaster and DerivationTree.append, compared state by state with a reference message-level language",
         text="For ~440 (thorough ~1300) protocol grammars of operator depth <= 2 over message atoms <A:B:m1>, <B:A:m2>, <A:B:m3> (|, concatenation, ?, *, +, {2}, {1,2}, {2,}, {0,2}, nesting through intermediate symbols, recursion) every history reachable by mounting forecast options (every message type x every mounting path) up to 4 (thorough 6) messages is explored; in every state the predicted (sender, recipient, type) set must equal the letters that extend the history to a prefix of the reference language and complete_trees must be non-empty exactly for full interactions.",
-        note="Grammars with an empty-deriving body under */+ are excluded (the forecaster's history re-parse diverges: C06 finding). Slicing to a party subset is not yet covered. Two deviations are recorded known findings.",
+        note="Messages between two external parties (slicing) are covered with an erasing projection as reference, except grammars where an invisible alternative branch makes the sliced semantics undefined. Two deviations are recorded known findings.",
         design="4 C19",
     ),
     "C20": dict(
